@@ -1338,6 +1338,10 @@ func (r *c05Run) classify(op c05Op, what string, a, b c05Out, diff []string, lea
 	switch {
 	case op.K == "removeall" && nonCanonical(op.P):
 		return "removeall/non-canonical-path", "os.RemoveAll normalises its argument before touching the tree (strips trailing slashes, refuses a final \".\" with EINVAL); Client.RemoveAll hands the text to STAT/READDIR/REMOVE as written"
+	case op.K == "glob" && what == "category" && a.Cat == "ok" && b.Cat == "other" && errors.Is(b.err, filepath.ErrBadPattern):
+		// exact mechanism: package os refused the pattern as malformed before looking at the tree; the client found nothing
+		// to match the malformed component against, so path.Match never ran on it
+		return "glob/malformed-pattern-not-refused-when-nothing-is-matched", "filepath.Glob validates the whole pattern up front (ErrBadPattern); Client.Glob reports a malformed pattern only when path.Match runs on a directory entry, and returns nil, nil when the malformed component meets no entry (missing or empty directory, directory part without matches)"
 	case op.K == "remove" && what == "category" && a.Cat == "not-exist" && b.Cat != "not-exist" && b.Cat != "ok":
 		if _, err := os.Stat(r.pB(op.P)); errors.Is(err, os.ErrNotExist) {
 			return "remove/error-from-stat-fallback", "REMOVE and RMDIR both failed with a non-ENOENT error (as os.Remove does), but Client.Remove then Stats the path and returns the STAT error (not-exist) instead"
